@@ -338,7 +338,7 @@ package core
 //@ func (*JApiCore).addJSight(core, d)
 //@   property C03,C05
 //@   requires core != nil && core.catalog != nil && directive.dirOK(d)
-//@   modifies core.catalog.JSightVersion
+//@   modifies core.catalog.JSightVersion, core.catalog.gFailed
 //@   ensures[C03,@missing-parameter] imp(!hasParam(d, "Version"), atKeyword(result, d))
 //@   ensures[C03,@unsupported-version] imp(hasParam(d, "Version") && d.namedParameters["Version"] != "0.3", atKeyword(result, d))
 //@   ensures[C03,@forbidden-annotation] imp(d.Annotation != "", atKeyword(result, d))
@@ -350,7 +350,7 @@ package core
 //@   property C03,C01
 //@   requires core != nil && core.catalog != nil && directive.dirOK(d)
 //@   requires[C01,@info-before-title] core.catalog.Info != nil
-//@   modifies core.catalog.Info.Title
+//@   modifies core.catalog.Info.Title, core.catalog.gFailed
 //@   ensures[C03,@missing-parameter] imp(!hasParam(d, "Title"), atKeyword(result, d))
 //@   ensures[C03,@forbidden-annotation] imp(d.Annotation != "", atKeyword(result, d))
 //@   ensures[C03,@title-repeated] imp(old(core.catalog.Info.Title) != "", atKeyword(result, d))
@@ -360,7 +360,7 @@ package core
 //@   property C03,C01
 //@   requires core != nil && core.catalog != nil && directive.dirOK(d)
 //@   requires[C01,@info-before-version] core.catalog.Info != nil
-//@   modifies core.catalog.Info.Version
+//@   modifies core.catalog.Info.Version, core.catalog.gFailed
 //@   ensures[C03,@missing-parameter] imp(!hasParam(d, "Version"), atKeyword(result, d))
 //@   ensures[C03,@forbidden-annotation] imp(d.Annotation != "", atKeyword(result, d))
 //@   ensures[C03,@version-repeated] imp(old(core.catalog.Info.Version) != "", atKeyword(result, d))
@@ -369,7 +369,7 @@ package core
 //@ func (*JApiCore).addServer(core, d)
 //@   property C03,C05
 //@   requires core != nil && catalog.catInv(core.catalog) && directive.dirOK(d)
-//@   modifies fields(core.catalog.Servers), core.catalog.Servers.data[:], core.catalog.Servers.order[:]
+//@   modifies fields(core.catalog.Servers), core.catalog.Servers.data[:], core.catalog.Servers.order[:], core.catalog.gFailed
 //@   ensures[C03,@missing-parameter] imp(!hasParam(d, "Name"), atKeyword(result, d))
 //@   ensures[C03,@duplicate-server] imp(hasParam(d, "Name") && old(has(core.catalog.Servers.data, d.namedParameters["Name"])), atKeyword(result, d))
 //@   ensures imp(result != nil, atKeyword(result, d))
@@ -395,3 +395,136 @@ package core
 //@   modifies anything
 //@   ensures[C03,@setter-error-reported] imp(core.catalog == old(core.catalog) && core.catalog.gFailed > old(core.catalog.gFailed), result != nil)
 //@   ensures[C03,@forbidden-annotation] imp(old(d.Annotation) != "", result != nil)
+
+// ---------------------------------------------------------------------------
+// The other per-directive handlers (C03): a fault the handler or the catalog detects is returned, located at the directive
+// (its keyword, or inside its body). These units are verified for these postconditions only (attr assumesafe: panics and
+// the index-inside-file clause of the errors built by inlined helpers are assumed here; the handlers whose panic freedom
+// is proved are listed above).
+//@ pred errAt(e *jerr.JApiError, d *directive.Directive) := e != nil && ((e.File == d.keywordCoords.file && e.Index == d.keywordCoords.begin)
+//@     || (d.BodyCoords.file != nil && e.File == d.BodyCoords.file))
+//@ pred errIn(e *jerr.JApiError, d *directive.Directive) := e != nil && (e.File == d.keywordCoords.file || (d.BodyCoords.file != nil && e.File == d.BodyCoords.file))
+//@ pred handlerPre(core *JApiCore, d *directive.Directive) := core != nil && core.catalog != nil && directive.dirOK(d) && bodyOK(d)
+//@ pred setterFailed(core *JApiCore, c0 *catalog.Catalog, n0 int) := core.catalog == c0 && c0.gFailed > n0
+
+//@ func description(b)
+//@   attr trusted
+//@   modifies nothing
+//@ extern strings.Trim(s, cutset)
+//@   attr pure deterministic nopanic
+//@ func PathParameters(path)
+//@   attr trusted
+//@   modifies nothing
+//@ func (*JApiCore).checkSimilarPaths(core, pp)
+//@   attr trusted
+//@   modifies anything
+//@   keeps directive.Directive, fs.File, JApiCore
+//@   ensures core.catalog.gFailed == old(core.catalog.gFailed)
+//@ func (*JApiCore).addOperationID(core, d)
+//@   property C03
+//@   attr assumesafe
+//@   requires handlerPre(core, d) && core.uniqOperationID != nil
+//@   modifies anything
+//@   keeps directive.Directive, fs.File
+//@   ensures[C03,@setter-error-reported] imp(setterFailed(core, old(core.catalog), old(core.catalog.gFailed)), result != nil)
+//@   ensures[C03,@missing-parameter] imp(old(!hasParam(d, "OperationId")), atKeyword(result, d))
+//@   ensures[C03,@forbidden-annotation] imp(d.Annotation != "", atKeyword(result, d))
+//@   ensures[C03,@duplicate-operation-id] imp(old(hasParam(d, "OperationId") && has(core.uniqOperationID, d.namedParameters["OperationId"])), atKeyword(result, d))
+//@   ensures[C03,C07,@error-at-directive] imp(result != nil, errAt(result, d))
+
+//@ func (*JApiCore).addDescription(core, d)
+//@   property C03
+//@   attr assumesafe
+//@   requires handlerPre(core, d) && catalog.catInv(core.catalog)
+//@   requires[C01,@info-before-description] imp(d.Parent != nil && d.Parent.type_ == directive.Info, core.catalog.Info != nil)
+//@   modifies anything
+//@   keeps directive.Directive, fs.File
+//@   ensures[C03,@setter-error-reported] imp(setterFailed(core, old(core.catalog), old(core.catalog.gFailed)), result != nil)
+//@   ensures[C03,@forbidden-annotation] imp(d.Annotation != "", atKeyword(result, d))
+//@   ensures[C03,@empty-description] imp(d.BodyCoords.file == nil, atKeyword(result, d))
+//@   ensures[C03,C07,@error-at-directive] imp(result != nil, errAt(result, d))
+
+//@ func (*JApiCore).addBaseUrl(core, d)
+//@   property C03
+//@   attr assumesafe
+//@   requires handlerPre(core, d) && catalog.catInv(core.catalog)
+//@   requires forall(k, string, imp(has(core.catalog.Servers.data, k), core.catalog.Servers.data[k] != nil))
+//@   modifies anything
+//@   keeps directive.Directive, fs.File
+//@   ensures[C03,@setter-error-reported] imp(setterFailed(core, old(core.catalog), old(core.catalog.gFailed)), result != nil)
+//@   ensures[C03,@missing-parameter] imp(old(!hasParam(d, "Path")), atKeyword(result, d))
+//@   ensures[C03,@forbidden-annotation] imp(d.Annotation != "", atKeyword(result, d))
+//@   ensures[C03,C07,@error-at-directive] imp(result != nil, errAt(result, d))
+
+//@ func (*JApiCore).addType(core, d)
+//@   property C03
+//@   attr assumesafe
+//@   requires handlerPre(core, d)
+//@   modifies anything
+//@   keeps directive.Directive, fs.File
+//@   ensures[C03,@setter-error-reported] imp(setterFailed(core, old(core.catalog), old(core.catalog.gFailed)), result != nil)
+//@   ensures[C03,@missing-parameter] imp(old(!hasParam(d, "Name")), atKeyword(result, d))
+//@   ensures[C03,C07,@error-in-directive-file] imp(result != nil, errIn(result, d))
+
+//@ func (*JApiCore).addHTTPMethod(core, d)
+//@   property C03
+//@   attr assumesafe
+//@   requires handlerPre(core, d)
+//@   modifies anything
+//@   keeps directive.Directive, fs.File
+//@   ensures[C03,@setter-error-reported] imp(setterFailed(core, old(core.catalog), old(core.catalog.gFailed)), result != nil)
+//@   ensures[C03,C07,@error-in-directive-file] imp(result != nil, errIn(result, d))
+
+//@ func (*JApiCore).addQuery(core, d)
+//@   property C03
+//@   attr assumesafe
+//@   requires handlerPre(core, d)
+//@   modifies anything
+//@   keeps directive.Directive, fs.File
+//@   ensures[C03,@setter-error-reported] imp(setterFailed(core, old(core.catalog), old(core.catalog.gFailed)), result != nil)
+//@   ensures[C03,@forbidden-annotation] imp(d.Annotation != "", atKeyword(result, d))
+//@   ensures[C03,@empty-body] imp(d.BodyCoords.file == nil, atKeyword(result, d))
+//@   ensures[C03,C07,@error-at-directive] imp(result != nil, errAt(result, d))
+
+//@ func (*JApiCore).addResponse(core, d)
+//@   property C03
+//@   attr assumesafe
+//@   requires handlerPre(core, d)
+//@   modifies anything
+//@   keeps directive.Directive, fs.File
+//@   ensures[C03,@setter-error-reported] imp(setterFailed(core, old(core.catalog), old(core.catalog.gFailed)), result != nil)
+//@   ensures[C03,@type-and-notation] imp(old(hasParam(d, "SchemaNotation") && hasParam(d, "Type")), atKeyword(result, d))
+//@   ensures[C03,C07,@error-in-directive-file] imp(result != nil, errIn(result, d))
+
+//@ func (*JApiCore).addHeaders(core, d)
+//@   property C03
+//@   attr assumesafe
+//@   requires handlerPre(core, d)
+//@   modifies anything
+//@   keeps directive.Directive, fs.File
+//@   ensures[C03,@setter-error-reported] imp(setterFailed(core, old(core.catalog), old(core.catalog.gFailed)), result != nil)
+//@   ensures[C03,@forbidden-annotation] imp(d.Annotation != "", atKeyword(result, d))
+//@   ensures[C03,@empty-body] imp(d.BodyCoords.file == nil, atKeyword(result, d))
+//@   ensures[C03,C07,@error-at-directive] imp(result != nil, errAt(result, d))
+
+//@ func (*JApiCore).addProtocol(core, d)
+//@   property C03
+//@   attr assumesafe
+//@   requires handlerPre(core, d) && core.onlyOneProtocolIntoURL != nil
+//@   modifies anything
+//@   keeps directive.Directive, fs.File
+//@   ensures[C03,@forbidden-annotation] imp(d.Annotation != "", atKeyword(result, d))
+//@   ensures[C03,@missing-parameter] imp(old(!hasParam(d, "ProtocolName")), atKeyword(result, d))
+//@   ensures[C03,@wrong-protocol] imp(old(hasParam(d, "ProtocolName") && d.namedParameters["ProtocolName"] != "json-rpc-2.0"), atKeyword(result, d))
+//@   ensures[C03,@duplicate-protocol] imp(old(has(core.onlyOneProtocolIntoURL, d.Parent)), atKeyword(result, d))
+//@   ensures[C03,C07,@error-at-directive] imp(result != nil, errAt(result, d))
+
+//@ func (*JApiCore).addJsonRpcMethod(core, d)
+//@   property C03
+//@   attr assumesafe
+//@   requires handlerPre(core, d)
+//@   modifies anything
+//@   keeps directive.Directive, fs.File
+//@   ensures[C03,@setter-error-reported] imp(setterFailed(core, old(core.catalog), old(core.catalog.gFailed)), result != nil)
+//@   ensures[C03,@missing-parameter] imp(old(!hasParam(d, "MethodName")), atKeyword(result, d))
+//@   ensures[C03,C07,@error-in-directive-file] imp(result != nil, errIn(result, d))
